@@ -1,9 +1,64 @@
-/- line protocol stub for component `Loc` (filled in by the component's owner) -/
+import Tulz.Model.Locale
+/- line protocol for the LocaleInfo model:
+     loc get <hex bytes | ->        ->  <code> | <name>,<name>… | <country> | <ccode> | err:0|1      (all strings in hex)
+                                        or `!<error>` when the model performs an out-of-bounds / uninitialised access
+     loc orig <hex bytes | ->       ->  the same for the code as found (finding F9); used by replays only
+     loc spec <hex bytes | ->       ->  the specification `spec`
+     loc table lang|country         ->  the regenerated table, `code:name` pairs in hex separated by blanks
+   The empty string is written `-`. -/
 namespace Tulz.Drv.Loc
+open Tulz.Locale
 
 abbrev State := Unit
 def init : State := ()
 
-def step (s : State) (_args : List String) : State × String := (s, "bad-op")
+def hexDigit (n : Nat) : Char := if n < 10 then Char.ofNat (48 + n) else Char.ofNat (87 + n)
+
+def hexOf (bs : List Nat) : String :=
+  if bs.isEmpty then "-" else String.ofList (bs.flatMap fun b => [hexDigit (b / 16 % 16), hexDigit (b % 16)])
+
+def digitVal (c : Char) : Option Nat :=
+  if '0' ≤ c ∧ c ≤ '9' then some (c.toNat - 48)
+  else if 'a' ≤ c ∧ c ≤ 'f' then some (c.toNat - 87)
+  else if 'A' ≤ c ∧ c ≤ 'F' then some (c.toNat - 55)
+  else none
+
+def parseHexChars : List Char → Option (List Nat)
+  | [] => some []
+  | [_] => none
+  | a :: b :: rest => do
+    let x ← digitVal a
+    let y ← digitVal b
+    let r ← parseHexChars rest
+    pure ((16 * x + y) :: r)
+
+def parseHex (s : String) : Option (List Nat) :=
+  if s == "-" then some [] else parseHexChars s.toList
+
+def showInfo (i : Info) : String :=
+  hexOf i.languageCode ++ " | " ++ ",".intercalate (i.languages.map hexOf) ++ " | " ++ hexOf i.country ++ " | " ++
+    hexOf i.countryCode ++ " | err:" ++ (if i.error then "1" else "0")
+
+def showRes : Except Err Info → String
+  | .ok i => showInfo i
+  | .error e => "!" ++ e.toString
+
+def showTable (t : Table) : String := " ".intercalate (t.map fun e => hexOf e.1 ++ ":" ++ hexOf e.2)
+
+def step (s : State) (args : List String) : State × String :=
+  match args with
+  | ["reset"] => (s, "ok")
+  | ["get", h] => match parseHex h with
+    | some bs => (s, showRes (get bs))
+    | none => (s, "bad-op")
+  | ["orig", h] => match parseHex h with
+    | some bs => (s, showRes (getAsFound bs))
+    | none => (s, "bad-op")
+  | ["spec", h] => match parseHex h with
+    | some bs => (s, showInfo (spec bs))
+    | none => (s, "bad-op")
+  | ["table", "lang"] => (s, showTable languageTable)
+  | ["table", "country"] => (s, showTable countryTable)
+  | _ => (s, "bad-op")
 
 end Tulz.Drv.Loc
